@@ -119,7 +119,7 @@ def report_pairs(report, acl_lines):
 
 BASE = dict(tid=0, exc="", ret_int=0, ret_num=[0, 0], flag=False, plat="", s=[0, 0], d=[0, 0], prefix="", perm=[], idx=0,
             skip=[], pairs=[], typ="", lines_distinct=True, same_as_shading_before=True, expect_empty=False, twin_text_equal=True,
-            twin_data_equal=True, shared_mutables=0, recorded=False, has_want=False, want=[])
+            twin_data_equal=True, shared_mutables=0, recorded=False, has_want=False, want=[], refuse=False, unrender=False)
 
 def member_line(text, plat):
     """the ACE spelling of an address as a line of an address-group section (format conversion only); None when the platform's
@@ -262,10 +262,13 @@ def exec_history(job):
                     acl.insert(op["idx"] - 1, obj)
             elif a == "EditEntry":
                 # a public in-place edit of one entry: an address that names a group is re-pointed to a plain address
+                # (op["refuse"]: the new text is one the address grammar refuses - prefix length 33, octet 400, more non-contiguous
+                # bits than the limit -: the edit must raise and leave the entry, hence the list, exactly as it was)
                 for x in leaves_of(acl):
                     if type(x).__name__ == "Ace":
                         for ad in (x.srcaddr, x.dstaddr):
-                            if ad.type == "addrgroup" and ad.items:
+                            if (ad.type == "addrgroup" and ad.items) or (op.get("refuse") and x.type == "extended"):
+                                e["refuse"] = bool(op.get("refuse"))      # an edit is attempted
                                 ad.line = op["text"]
                                 break
             elif a == "EditMembers":
@@ -356,6 +359,7 @@ def exec_history(job):
             e["twin"] = obs_acl(twin, vm, job["ver"]) if twin is not None else e["obs"]
         except Exception as ex:  # noqa   the object can no longer be rendered: that is itself an observation
             e["exc"] = "Unrenderable:" + core.exc_name(ex)
+            e["unrender"] = True
             e["obs"] = events[-1]["obs"]
             e["twin"] = events[-1]["twin"]
             events.append(e)
@@ -498,6 +502,9 @@ def rand_op(rng, plat_now, weights):
         op["typ"] = rng.choice(["standard", "extended", "extended"])
     elif a == "EditEntry":
         op["text"] = rng.choice(["host 10.1.2.3", "any", "10.0.0.0 0.0.0.255"])
+        if rng.random() < 0.4:
+            op["refuse"] = True
+            op["text"] = rng.choice(["10.0.0.0/33", "host 1.2.3.400", "10.0.0.0 0.0.0.256", "10.0.0.400/24"])
     elif a == "EditMembers":
         w = rand_w(rng)
         op.update(how=rng.choice(["append", "append", "del", "setline"]), idx=rng.randint(0, 3),
